@@ -40,7 +40,7 @@ func TestC01(t *testing.T) {
 	r := evid.Start(t, "C01", "exploration")
 	n := r.N(150, 4000)
 	if os.Getenv("VERIF_PHASE") == "race" {
-		n = r.N(5, 150)
+		n = r.N(5, 60)
 	}
 	profiles := []string{"lan", "lan", "local", "wan"}
 
@@ -53,12 +53,13 @@ func TestC01(t *testing.T) {
 		var problems []string // per-view disagreements at the deadline (or at a relapse)
 		var probKeys []string
 		converged := time.Duration(-1)
-		faults, changes, leavesSkipped, leaves, relapses := 0, 0, 0, 0, 0
+		faults, changes, leavesSkipped, leaves, relapses, uninformed := 0, 0, 0, 0, 0, 0
 
 		synctest.Test(t, func(t *testing.T) {
 			nw := simnet.New(int64(ci))
 			t0 := time.Now()
 			nodes := make([]*c01Node, nn)
+			leftSoonAfterFault := map[string]bool{} // leaver -> a cut or loss had been active less than 3 virtual minutes before
 			mut := func(c *serf.Config) {
 				c.ReconnectInterval = time.Duration(2+rng.Intn(4)) * time.Second
 				c.ReconnectTimeout = 1000 * time.Hour
@@ -66,7 +67,13 @@ func TestC01(t *testing.T) {
 				c.ReapInterval = 1000 * time.Hour
 			}
 			start := func(x *c01Node) bool {
-				nd, err := cluster.Start(nw, cluster.Opts{Name: x.name, IP: x.ip, Profile: profile, Mutate: mut})
+				o := cluster.Opts{Name: x.name, IP: x.ip, Profile: profile, Mutate: mut}
+				if f := os.Getenv("VERIF_C01_LOG"); f != "" { // debugging aid for replays: serf and memberlist logs of every node
+					if fh, err := os.OpenFile(f, os.O_APPEND|os.O_CREATE|os.O_WRONLY, 0644); err == nil {
+						o.LogTo = c01Prefix{fh, x.name, t0}
+					}
+				}
+				nd, err := cluster.Start(nw, o)
 				if err != nil {
 					setupErr = "start: " + err.Error()
 					return false
@@ -110,12 +117,27 @@ func TestC01(t *testing.T) {
 			}
 			// check compares every running node's view with the ground truth
 			check := func() (bad []string, keys []string) {
+				// a graceful leave is information: gossip can only deliver it where a running instance holds it
+				leftKnown := map[string]bool{}
+				for _, v := range running() {
+					for name, st := range v.nd.MemberMap() {
+						if st == serf.StatusLeft {
+							leftKnown[name] = true
+						}
+					}
+				}
 				for _, v := range running() {
 					learned := map[string]bool{}
+					sawLeave := map[string]bool{}
 					for _, le := range v.nd.Events() {
-						if me, ok := le.E.(serf.MemberEvent); ok && me.Type == serf.EventMemberJoin {
+						if me, ok := le.E.(serf.MemberEvent); ok {
 							for _, m := range me.Members {
-								learned[m.Name] = true
+								switch me.Type {
+								case serf.EventMemberJoin:
+									learned[m.Name] = true
+								case serf.EventMemberLeave:
+									sawLeave[m.Name] = true
+								}
 							}
 						}
 					}
@@ -138,9 +160,17 @@ func TestC01(t *testing.T) {
 						case !listed && learned[o.name]:
 							bad = append(bad, fmt.Sprintf("%s no longer lists %s (%s) although it had learned of it", v.name, o.name, o.state))
 							keys = append(keys, o.state+"-member-missing")
+						case listed && o.state == "left" && st == serf.StatusFailed && !leftKnown[o.name] && !sawLeave[o.name]:
+							// no running instance ever heard of the leave (everybody who did has crashed): nothing can tell v
+							uninformed++
 						case listed && st != want:
 							bad = append(bad, fmt.Sprintf("%s lists %s member %s as %v", v.name, o.state, o.name, st))
-							keys = append(keys, o.state+"-member-listed-"+st.String())
+							key := o.state + "-member-listed-" + st.String()
+							if o.state == "left" && st == serf.StatusFailed && leftSoonAfterFault[o.name] {
+								// failure-detector suspicion from the healed fault may still be pending when the leave starts
+								key += "/leave-within-3min-of-a-healed-fault"
+							}
+							keys = append(keys, key)
 						}
 					}
 				}
@@ -152,6 +182,7 @@ func TestC01(t *testing.T) {
 			}
 			time.Sleep(time.Duration(5+rng.Intn(20)) * time.Second)
 			cutActive, lossActive := false, false
+			lastFault := time.Duration(-1) // virtual time at which a cut or loss was last active
 			log := func(f string, a ...any) {
 				trace = append(trace, fmt.Sprintf("%v ", time.Since(t0).Round(time.Millisecond))+fmt.Sprintf(f, a...))
 			}
@@ -167,6 +198,7 @@ func TestC01(t *testing.T) {
 						break
 					}
 					log("leave %s", x.name)
+					leftSoonAfterFault[x.name] = lastFault >= 0 && time.Since(t0)-lastFault < 3*time.Minute
 					_ = x.nd.S.Leave()
 					x.nd.Close()
 					x.state = "left"
@@ -214,6 +246,9 @@ func TestC01(t *testing.T) {
 					faults++
 				case k < 82:
 					log("heal")
+					if cutActive || lossActive {
+						lastFault = time.Since(t0)
+					}
 					nw.Heal()
 					cutActive, lossActive = false, false
 				case k < 90 && x.state == "running":
@@ -285,6 +320,9 @@ func TestC01(t *testing.T) {
 		r.Count("graceful_leaves", leaves)
 		r.Count("graceful_leaves_skipped_views_not_converged", leavesSkipped)
 		r.Count("transient_relapses_before_stability", relapses)
+		if uninformed > 0 {
+			r.Count("scenarios_where_no_running_instance_knew_of_a_leave", 1)
+		}
 		wit := map[string]any{"profile": profile, "nodes": nn, "script": trace, "disagreements": problems}
 		if len(problems) > 0 {
 			seen := map[string]bool{}
@@ -327,6 +365,17 @@ func TestC01(t *testing.T) {
 		"a member may be missing only from an instance whose event stream never carried a join for it",
 		"restarts are only issued for crashed nodes: a restart after a graceful or forced leave is the subject of C02's known findings (stale leave vs the new incarnation's join) and is not generated here; force-leave is not generated",
 	)
+}
+
+type c01Prefix struct {
+	w    *os.File
+	name string
+	t0   time.Time
+}
+
+func (p c01Prefix) Write(b []byte) (int, error) {
+	fmt.Fprintf(p.w, "%v %s %s", time.Since(p.t0).Round(time.Millisecond), p.name, b)
+	return len(b), nil
 }
 
 func c01StripTimes(tr []string) []string {
